@@ -259,6 +259,12 @@ func serverForwardRequests(
 		// no one uses.
 		delete(req.Header, "Upgrade")
 
+		// Do not let [http.Request.Write] add its default User-Agent
+		// when the client did not send one.
+		if _, ok := req.Header["User-Agent"]; !ok {
+			req.Header.Set("User-Agent", "")
+		}
+
 		// Notify the response forwarding routine about the request before writing it out,
 		// so that a received 1xx informational response can be forwarded back to the client
 		// in time, unblocking the write.
